@@ -152,7 +152,85 @@ func genPricing(r *lib.Rand, allowGold bool) *Pricing {
 	return p
 }
 
+// genSched: stream "sched" — one or two REPEATED contexts whose frequency is several blocks
+// larger than their timeout, driven block by block over more than three periods, with
+// pause / start pairs (and a few strangers' attempts, responses, a rare update or kill) placed
+// uniformly over the whole period, in particular in the gap between the expiry of batch n and
+// the scheduled height of batch n+1.
+func genSched(r *lib.Rand, tier string) History {
+	var h History
+	c := &h.Cfg
+	c.Tax = "50000000000000000"
+	c.Slash = []string{"0", "1000000000000000"}[r.Intn(2)]
+	c.MaxTo = r.Range(4, 8)
+	c.Mult = r.Range(1, 5)
+	c.MinDep = r.Range(50, 200)
+	c.WaitA, c.WaitC = 2, 2
+	c.Restricted = true
+	for a := 0; a < nActors; a++ {
+		c.Bal = append(c.Bal, []int64{1000000000, 1000000000})
+	}
+	h.Steps = append(h.Steps, Step{K: "define", Svc: 0, Who: 0})
+	for p := 2; p <= 3; p++ {
+		pr := &Pricing{D: 0, A: r.Range(1, 50)}
+		h.Steps = append(h.Steps, Step{K: "bind", Svc: 0, Prov: p, DepA: pr.A*c.Mult*3 + c.MinDep + 5000, Pr: pr, Qos: 1, Opt: 1})
+	}
+	timeout := r.Range(1, 4)
+	freq := timeout + r.Range(3, 9)
+	nctx := 1 + r.Weighted(3, 1)
+	for k := 0; k < nctx; k++ {
+		s := Step{K: "call", Svc: 0, Who: 5, CapA: 100000, Timeout: timeout, Rep: true, Freq: freq, Total: []int64{-1, -1, 4, 6}[r.Intn(4)]}
+		s.Provs = [][]int{{2}, {2, 3}, {3}}[r.Intn(3)]
+		if k == 1 {
+			s.Timeout = r.Range(1, 4)
+			s.Freq = s.Timeout + r.Range(2, 6)
+		}
+		h.Steps = append(h.Steps, s)
+	}
+	blocks := int(3*freq) + r.Intn(int(freq)+2)
+	if tier == "thorough" {
+		blocks += r.Intn(int(2 * freq))
+	}
+	// pause / start pairs: pause at block a, start at block b > a, anywhere in the run
+	events := map[int][]Step{}
+	npairs := 1 + r.Weighted(3, 2, 1)
+	for k := 0; k < npairs; k++ {
+		a := 1 + r.Intn(blocks-2)
+		b := a + 1 + r.Intn(int(freq))
+		if r.Chance(1, 3) {
+			b = a // pause and start inside one block
+		}
+		sel := r.Intn(1000)
+		events[a] = append(events[a], Step{K: "pause", Sel: sel})
+		events[b] = append(events[b], Step{K: "start", Sel: sel})
+	}
+	for k := r.Weighted(2, 2, 1); k > 0; k-- {
+		b := 1 + r.Intn(blocks-1)
+		switch r.Weighted(3, 2, 1, 1) {
+		case 0:
+			events[b] = append(events[b], Step{K: []string{"pause", "start"}[r.Intn(2)], Sel: r.Intn(1000), Mode: 1})
+		case 1:
+			events[b] = append(events[b], Step{K: "start", Sel: r.Intn(1000)})
+		case 2:
+			events[b] = append(events[b], Step{K: "updctx", Sel: r.Intn(1000), Freq: freq + r.Range(0, 3)})
+		default:
+			events[b] = append(events[b], Step{K: "kill", Sel: r.Intn(1000)})
+		}
+	}
+	for b := 0; b < blocks; b++ {
+		h.Steps = append(h.Steps, events[b]...)
+		h.Steps = append(h.Steps, Step{K: "end", Dt: r.Range(1, 8)})
+		if r.Chance(1, 3) {
+			h.Steps = append(h.Steps, Step{K: "respond", Sel: r.Intn(1000), Kind: 1})
+		}
+	}
+	return h
+}
+
 func gen(r *lib.Rand, tier, stream string, i int) History {
+	if stream == "sched" {
+		return genSched(r, tier)
+	}
 	var h History
 	c := &h.Cfg
 	c.Tax = []string{"0", "1000000000000", "50000000000000000", "999999000000000000", "50000000000000000", "100000000000000000"}[r.Intn(6)]
